@@ -2,7 +2,7 @@
    Only the property theorems live here; each is closed by a lemma of Proofs/Sid.v or
    Proofs/StreamCtl.v and its assumptions are printed for the audit. *)
 From Coq Require Import List NArith ZArith Bool.
-From GQ Require Import Model.StreamCtl Proofs.Sid Proofs.StreamCtl.
+From GQ Require Import Model.StreamCtl Proofs.Sid Proofs.StreamCtl Proofs.StreamLift.
 Import ListNotations.
 Local Open Scope N_scope.
 
@@ -23,25 +23,25 @@ Theorem c12_open_limit_is_granted : forall r ops s d,
 Proof. exact p_c12_limit_is_granted. Qed.
 
 (* accepted index <= max; the full statement (< max) holds outside the known class F14 *)
-Theorem c12_accept_bound : forall s d idx s' res up,
-  try_accept_sid false s d idx = (s', res, up) ->
+Theorem c12_accept_bound : forall mono s d idx s' res up,
+  try_accept_sid false mono s d idx = (s', res, up) ->
   idx <> pget (r_max s) d ->                         (* ~ KnownClass F14 *)
   (forall m, res <> AccExceed m) -> idx < pget (r_max s) d.
 Proof. exact p_c12_accept_bound. Qed.
 
-Theorem c12_accept_le : forall s d idx s' res up,
-  try_accept_sid false s d idx = (s', res, up) ->
+Theorem c12_accept_le : forall mono s d idx s' res up,
+  try_accept_sid false mono s d idx = (s', res, up) ->
   (forall m, res <> AccExceed m) -> idx <= pget (r_max s) d.
 Proof. exact p_c12_accept_le. Qed.
 
-Theorem c12_accept_exact : forall strict s d idx,
-  (exists m, snd (fst (try_accept_sid strict s d idx)) = AccExceed m)
+Theorem c12_accept_exact : forall strict mono s d idx,
+  (exists m, snd (fst (try_accept_sid strict mono s d idx)) = AccExceed m)
   <-> over_limit strict idx (pget (r_max s) d) = true.
 Proof. exact p_c12_accept_exact. Qed.
 
 (* F14: with limit 0 the peer's stream 0 is accepted *)
 Theorem c12_accept_bound_refuted : exists s d idx s' res up,
-  try_accept_sid false s d idx = (s', res, up) /\ (forall m, res <> AccExceed m) /\ ~ idx < pget (r_max s) d.
+  try_accept_sid false true s d idx = (s', res, up) /\ (forall m, res <> AccExceed m) /\ ~ idx < pget (r_max s) d.
 Proof.
   exists (mkrsid (0, 0) (0, 0) Demand), Bi, 0. eexists _, _, _. split; [vm_compute; reflexivity|].
   split; [intros m; discriminate|vm_compute; discriminate].
@@ -54,8 +54,8 @@ Example c12_f14_replay :
   = [[1; 0]; [0; 1; 0]; [4; 0; 0]]%Z.
 Proof. vm_compute. reflexivity. Qed.
 
-Theorem c12_accept_bound_rfc : forall s d idx s' res up,
-  try_accept_sid true s d idx = (s', res, up) ->
+Theorem c12_accept_bound_rfc : forall mono s d idx s' res up,
+  try_accept_sid true mono s d idx = (s', res, up) ->
   (forall m, res <> AccExceed m) -> idx < pget (r_max s) d.
 Proof. exact p_c12_accept_bound_strict. Qed.
 
@@ -73,8 +73,8 @@ Theorem c12_direction : forall v s sid,
        /\ ds_step v s (OMaxSD sid w) = (set_closed s, [5; 0; 0]%Z)).
 Proof. exact p_c12_direction_step. Qed.
 
-Theorem c12_direction_only : forall s sid side,
-  ds_check_sid s sid side = inr EStreamState ->
+Theorem c12_direction_only : forall v s sid side,
+  ds_check_sid v s sid side = inr EStreamState ->
   sid_dir sid = Uni /\ (if side then sid_role sid = d_role s else sid_role sid <> d_role s).
 Proof. exact p_c12_direction_only. Qed.
 
@@ -116,25 +116,119 @@ Proof. exact p_c12_final_size_stable. Qed.
 
 (* implicit open: for every history, yielded ++ queued is exactly the ids of indices 0..next-1,
    in order and without repetition *)
-Theorem c12_implicit_open : forall strict peer ops s,
-  r_next s = (0, 0) -> Rinv peer (rl_exec strict peer ops (rl_init s)).
+Theorem c12_implicit_open : forall strict mono peer ops s,
+  r_next s = (0, 0) -> Rinv peer (rl_exec strict mono peer ops (rl_init s)).
 Proof. exact p_c12_implicit_open. Qed.
 
-Theorem c12_implicit_once : forall strict peer ops s d,
+Theorem c12_implicit_once : forall strict mono peer ops s d,
   r_next s = (0, 0) ->
-  NoDup (qget (rl_y (rl_exec strict peer ops (rl_init s))) d ++ qget (rl_q (rl_exec strict peer ops (rl_init s))) d).
+  NoDup (qget (rl_y (rl_exec strict mono peer ops (rl_init s))) d ++ qget (rl_q (rl_exec strict mono peer ops (rl_init s))) d).
 Proof. exact p_c12_implicit_once. Qed.
 
-Theorem c12_implicit_all : forall strict s d idx s' first last up,
-  try_accept_sid strict s d idx = (s', AccNew first last, up) ->
+Theorem c12_implicit_all : forall strict mono s d idx s' first last up,
+  try_accept_sid strict mono s d idx = (s', AccNew first last, up) ->
   need_create first last = range_nat (pget (r_next s) d) (N.to_nat (idx + 1 - pget (r_next s) d))
   /\ pget (r_next s') d = idx + 1.
 Proof. exact p_c12_implicit_all. Qed.
 
+
+(* ---- whole-DataStreams op lists (simulation of ds_step by the Sid / listener components) *)
+Theorem c12_ds_simulates_local : forall v s o,
+  exists lops, (op_no_reject o -> Forall no_reject lops)
+               /\ d_l (fst (ds_step v s o)) = fst (l_exec (d_role s) (d_l s) lops)
+               /\ d_role (fst (ds_step v s o)) = d_role s.
+Proof. exact ds_step_lsim. Qed.
+
+Theorem c12_ds_simulates_remote : forall v s y o,
+  Sim v s y (fst (ds_step v s o)) (accept_yield o (snd (ds_step v s o)) y).
+Proof. exact ds_step_rsim. Qed.
+
+Theorem c12_open_bound_ds : forall v ops s,
+  Forall op_no_reject ops -> Linv (d_l s) -> Linv (d_l (ds_exec v s ops)).
+Proof. exact p_c12_open_bound_ds. Qed.
+
+(* y' = the ids the ACCEPT observations yielded, in order; queued = Listener queues *)
+Theorem c12_implicit_open_ds : forall v ops s y,
+  Rinv (peer_of (d_role s)) (rl_of s y) ->
+  let '(s', y') := ds_exec_y v s y ops in
+  d_role s' = d_role s /\ Rinv (peer_of (d_role s)) (rl_of s' y').
+Proof. exact p_c12_implicit_open_ds. Qed.
+
+Theorem c12_implicit_open_ds_init : forall r c loc rem mem,
+  Rinv (peer_of r) (rl_of (ds_init r c loc rem mem) ([], [])).
+Proof. exact Rinv_init_ds. Qed.
+
+(* ---- F27 repaired: the advertised MAX_STREAMS limit *)
+Theorem c12_limit_monotone : forall strict peer ops x,
+  max_le (r_max (rl_s x)) (r_max (rl_s (rl_exec strict true peer ops x))).
+Proof. exact p_c12_limit_monotone. Qed.
+
+Theorem c12_limit_monotone_ds : forall v ops s,
+  fix27 v = true -> max_le (r_max (d_r s)) (r_max (d_r (ds_exec v s ops))).
+Proof. exact p_c12_limit_monotone_ds. Qed.
+
+(* a MAX_STREAMS frame is queued exactly when the limit goes up, and carries the new limit *)
+Theorem c12_limit_frames : forall s d x,
+  (max_le (r_max s) (r_max (fst (on_end_of_stream true s d x)))
+   /\ match snd (on_end_of_stream true s d x) with
+      | Some a => a = pget (r_max (fst (on_end_of_stream true s d x))) d /\ pget (r_max s) d < a
+      | None => r_max (fst (on_end_of_stream true s d x)) = r_max s
+      end)
+  /\ (max_le (r_max s) (r_max (fst (recv_streams_blocked true s d x)))
+      /\ match snd (recv_streams_blocked true s d x) with
+         | Some a => a = pget (r_max (fst (recv_streams_blocked true s d x))) d /\ pget (r_max s) d < a
+         | None => r_max (fst (recv_streams_blocked true s d x)) = r_max s
+         end).
+Proof. intros s d x. split; [apply end_max_mono|apply blocked_max_mono]. Qed.
+
+(* the value in the peer's STREAMS_BLOCKED frame only decides "stale or not": the new limit is a
+   function of the receiver's own state (hostile values included) *)
+Theorem c12_blocked_own_state : forall s d v v',
+  pget (r_max s) d <= v -> pget (r_max s) d <= v' ->
+  recv_streams_blocked true s d v = recv_streams_blocked true s d v'.
+Proof. exact p_c12_blocked_own_state. Qed.
+
+Theorem c12_blocked_stale : forall s d v,
+  v < pget (r_max s) d -> recv_streams_blocked true s d v = (s, None).
+Proof. exact p_c12_blocked_stale. Qed.
+
+Theorem c12_blocked_demand : forall s d v,
+  r_ctrl s = Demand -> pget (r_max s) d <= v ->
+  recv_streams_blocked true s d v
+  = (mkrsid (pset (r_max s) d (pget (r_max s) d + 1)) (r_next s) Demand, Some (pget (r_max s) d + 1)).
+Proof. exact p_c12_blocked_demand. Qed.
+
+Theorem c12_blocked_consistent : forall s d v ms,
+  r_ctrl s = Consistent ms -> fst (recv_streams_blocked true s d v) = s /\ snd (recv_streams_blocked true s d v) = None.
+Proof. exact p_c12_blocked_consistent. Qed.
+
+Theorem c12_end_consistent : forall s d idx,
+  ctrl_synced s ->
+  ctrl_synced (fst (on_end_of_stream true s d idx))
+  /\ match r_ctrl s with
+     | Consistent _ => snd (on_end_of_stream true s d idx) = Some (pget (r_max s) d + 1)
+     | Demand => snd (on_end_of_stream true s d idx) = None
+     end.
+Proof. exact p_c12_end_consistent. Qed.
+
+(* before the repair (F27): DemandConcurrency, limit 6, STREAMS_BLOCKED(1) -> limit 2 *)
+Theorem c12_limit_monotone_refuted :
+  exists s d v, pget (r_max (fst (recv_streams_blocked false s d v))) d < pget (r_max s) d.
+Proof. exact p_c12_limit_monotone_refuted. Qed.
+
+(* the F27 witness on the whole model: as it was, MAX_STREAMS(bidi, 2) goes out and the permitted
+   stream 16 (index 4 < 6) is refused; repaired, the stale frame is ignored and the stream accepted *)
+Example c12_f27_replay :
+  let cfg := [1; 0; 1; 6; 6; 100000; 100; 100; 100; 5; 5; 100000; 700; 1000; 0; 0; 0; 0; 0; 0; 0]%Z in
+  let ops := [(0, [0%Z]); (12, [0; 1]%Z); (7, [16; 0; 1; 0]%Z)] in
+  run_streams cfg ops = [[1; 0]; [0; 0; 1; 5; 0; 2; 0; 0]; [4; 0; 0]]%Z
+  /\ run_streams_fixed cfg ops = [[1; 0]; [0; 0; 0]; [0; 1; 0]]%Z.
+Proof. vm_compute. split; reflexivity. Qed.
+
 (* non-vacuity: a history with a jump to index 3, an old index, pops, a refused index, and local
    opens that hit the limit and continue after MAX_STREAMS *)
 Example c12_nonvacuous :
-  let x := rl_exec false Client [RUse Bi 3; RPop Bi; RUse Bi 1; RUse Uni 0; RUse Bi 9; RPop Bi; RUse Bi 4; RPop Uni]
+  let x := rl_exec false true Client [RUse Bi 3; RPop Bi; RUse Bi 1; RUse Uni 0; RUse Bi 9; RPop Bi; RUse Bi 4; RPop Uni]
                    (rl_init (mkrsid (5, 1) (0, 0) (Consistent (5, 1)))) in
   qget (rl_y x) Bi = [0; 4] /\ qget (rl_q x) Bi = [8; 12; 16] /\ qget (rl_y x) Uni = [2]
   /\ snd (l_exec Server (mklsid (1, 0) (0, 0)) [LAlloc Bi; LAlloc Bi; LIncrease Bi 3; LAlloc Bi; LAlloc Uni]) = [1; 5].
@@ -160,3 +254,18 @@ Print Assumptions c12_implicit_open.
 Print Assumptions c12_implicit_once.
 Print Assumptions c12_implicit_all.
 Print Assumptions c12_nonvacuous.
+Print Assumptions c12_ds_simulates_local.
+Print Assumptions c12_ds_simulates_remote.
+Print Assumptions c12_open_bound_ds.
+Print Assumptions c12_implicit_open_ds.
+Print Assumptions c12_implicit_open_ds_init.
+Print Assumptions c12_limit_monotone.
+Print Assumptions c12_limit_monotone_ds.
+Print Assumptions c12_limit_frames.
+Print Assumptions c12_blocked_own_state.
+Print Assumptions c12_blocked_stale.
+Print Assumptions c12_blocked_demand.
+Print Assumptions c12_blocked_consistent.
+Print Assumptions c12_end_consistent.
+Print Assumptions c12_limit_monotone_refuted.
+Print Assumptions c12_f27_replay.
